@@ -351,7 +351,9 @@ def Table.rows (t : Table) : List Row :=
   (t.file.filter (·.2)).map (·.1) ++ (if t.includeMem then t.mem else [])
 
 /-- file part of fileStore.iterate.  `some e` = `return offsetsBySource, e`; `none` = the loop
-    reached EOF.  Pre-fix (`d15 = false`): `var more bool` stays false for a row that maps no
+    reached EOF.  A row that maps none of the requested columns is passed over (`continue`)
+    without a callback — and therefore without a look at the deadline: the scan's only guard is
+    `guard.ProceedAfter(onValue(..))` behind a delivered row (rowStore.iterate, combinedOnValue).  Pre-fix (`d15 = false`): `var more bool` stays false for a row that maps no
     requested column, so `if !more || err != nil { return offsetsBySource, err }` returns nil. -/
 def fileLoop {σ : Type} (d15 : Bool) (s : Sink σ) : σ → Nat → List (Row × Bool) → σ × Nat × Option (Option Err)
   | st, _, [] => (st, 0, none)
